@@ -947,6 +947,7 @@ func init() {
 			}
 			ss = append(ss, orderSuite("c18/delivery-order/within-hand", "bot", tier, false))
 			ss = append(ss, orderSuite("c18/delivery-order/across-hands", "bot", tier, true))
+			ss = append(ss, thinkingSuite("c18/delivery-order/late-while-thinking", tier))
 			return ss
 		},
 	})
